@@ -1,16 +1,21 @@
 (* C40 -- facts about the abstract REPL machine [step] / [run_abstract] of Repl.v, for all
-   histories, all values, all output scripts.  (That the generated code implements [step] is
-   ReplSweep.v / ReplProofs.v.) *)
+   histories, all values, all output scripts and all class matchers.  (That the generated code
+   implements [step] is ReplLift.v.) *)
 From HyV Require Import State.Repl.
 
+Section Abstract.
+Variable m : val -> list string -> bool.
+Notation step := (step m).
+Notation run_abstract := (run_abstract m).
+
 Ltac step_cases out inp :=
-  destruct inp as [|v|x|x f]; cbn [step];
-  [ | destruct (is_none v); [|destruct (out v) as [y|]; [destruct (is_exception y)|]]
-    | destruct (is_syntax_family x); [|destruct (is_macro_or_require x); [|destruct (is_language_error x)]]
-    | destruct (is_system_exit x); [|destruct (is_exception x)] ].
+  destruct inp as [|v|x|x f]; cbn [Repl.step];
+  [ | destruct (is_none v); [|destruct (out v) as [y|]; [destruct (is_exception m y)|]]
+    | destruct (is_syntax_family m x); [|destruct (is_macro_or_require m x); [|destruct (is_language_error m x)]]
+    | destruct (is_system_exit m x); [|destruct (is_exception m x)] ].
 
 (* ---- "asks for more input exactly while the accumulated text is incomplete" *)
-Lemma more_iff_incomplete out inp r : snd (step out inp r) = Some true <-> inp = IIncomplete.
+Lemma more_iff_incomplete out inp r : snd (step out inp r) = inl true <-> inp = IIncomplete.
 Proof. step_cases out inp; cbn; split; try reflexivity; discriminate. Qed.
 
 Lemma incomplete_changes_nothing out r : fst (step out IIncomplete r) = r.
@@ -50,7 +55,7 @@ Lemma run_slots out inputs : forall r acc,
   slots_are r acc -> slots_are (run_abstract out inputs r) (results_acc inputs acc).
 Proof.
   induction inputs as [|inp rest IH]; intros r acc HS; [exact HS|].
-  cbn [run_abstract].
+  cbn [Repl.run_abstract].
   pose proof (step_slots out inp r) as S. cbv zeta in S.
   destruct inp as [|v|x|x f]; cbn [results_acc evaluated] in *; apply IH.
   - destruct S as (A & B & C). destruct HS as (P & Q & R). unfold slots_are. rewrite A, B, C. repeat split; assumption.
@@ -72,27 +77,27 @@ Definition failure_of (out : out_script) (inp : input) : option val :=
   match inp with
   | IIncomplete => None
   | IValue v => if is_none v then None
-                else match out v with Some y => if is_exception y then Some y else None | None => None end
+                else match out v with Some y => if is_exception m y then Some y else None | None => None end
   | ICompileError x =>
-      if is_syntax_family x || is_macro_or_require x || is_language_error x then Some x else None
-  | IRunError x _ => if is_system_exit x then None else if is_exception x then Some x else None
+      if is_syntax_family m x || is_macro_or_require m x || is_language_error m x then Some x else None
+  | IRunError x _ => if is_system_exit m x then None else if is_exception m x then Some x else None
   end.
 
 Lemma step_e out inp r :
-  r_e (fst (step out inp r)) = match failure_of out inp with Some x => Some x | None => r_e r end.
+  r_e (fst (step out inp r)) = match failure_of out inp with Some x => x | None => r_e r end.
 Proof. unfold failure_of. step_cases out inp; reflexivity. Qed.
 
-Fixpoint latest_failure (out : out_script) (inputs : list input) (acc : option val) : option val :=
+Fixpoint latest_failure (out : out_script) (inputs : list input) (acc : val) : val :=
   match inputs with
   | [] => acc
-  | inp :: rest => latest_failure out rest (match failure_of out inp with Some x => Some x | None => acc end)
+  | inp :: rest => latest_failure out rest (match failure_of out inp with Some x => x | None => acc end)
   end.
 
 Theorem star_e_is_latest_failure out inputs : forall r,
   r_e (run_abstract out inputs r) = latest_failure out inputs (r_e r).
 Proof.
   induction inputs as [|inp rest IH]; intros r; [reflexivity|].
-  cbn [run_abstract latest_failure]. rewrite IH, step_e. reflexivity.
+  cbn [Repl.run_abstract latest_failure]. rewrite IH, step_e. reflexivity.
 Qed.
 
 (* ---- "a failed input never makes two of them repeat one input's result" *)
@@ -128,3 +133,5 @@ Proof.
     destruct (X 0%nat 2%nat ltac:(auto)) as [E|E2]; [left; exact E|]. right. split; assumption.
   - destruct (X 1%nat 2%nat ltac:(auto)) as [E|E]; [left|right]; exact E.
 Qed.
+
+End Abstract.
